@@ -28,7 +28,7 @@ var defaultWeights = map[string]int{
 func applyDefaults() {
 	for id, pd := range Props {
 		if pd.Profile.Bulk == 0 {
-			pd.Profile.Bulk = 4 // every profile: a few percent of the cases run on a world with hundreds of archetypes
+			pd.Profile.Bulk = 6 // every profile: a few percent of the cases run on a world with hundreds of archetypes
 		}
 		if id == "C20" || id == "C12" {
 			// traces are compared across processes/builds: keep these profiles as defined
@@ -202,7 +202,7 @@ func init() {
 	mixed := with(obsW, "obsNew", 3, "obsReg", 3, "filterNew", 6, "filterReg", 5, "query", 12, "stats", 4, "shrink", 3, "reset", 1, "setRel", 8, "removeEntity", 9, "removeEntities", 5, "newBatch", 8, "dumpLoad", 1)
 	Props["C12"] = &PropDef{
 		ID:       "C12",
-		Profile:  &Profile{Name: "mixed", W: mixed, MaxEnts: 40, MinOps: 20, MaxOps: 120, RelBias: 60, Caps: []int{1, 1, 2, 3, 4, 8, 16}},
+		Profile:  &Profile{Name: "mixed", W: mixed, MaxEnts: 40, MinOps: 20, MaxOps: 120, RelBias: 60, Caps: []int{1, 1, 2, 3, 4, 8, 16}, Bulk: 20},
 		Policies: []Policy{{}, {}},
 		Opt:      Options{DeepEvery: 10},
 		Rule: genNote + "every op list (all op kinds incl. relation-table recycling, cached filters, observers, Shrink, Reset) is executed twice in one process and once in each of 3 long-lived child processes (separate map hash seeds); " +
